@@ -258,7 +258,9 @@ def file_case(rec, n):
                             input_envelope=None, output_envelope=None, omit_payload_regex=None, dependency_regex=None)
                 cmd_cache_create.main(**args)
                 return None
-            argv = ["cache_create", sub, "--output-file", out, "--eb-size", str(kw["eb"])]
+            # decimal numbers as a fixed-width build script writes them (064): still decimal
+            ebs = str(kw["eb"]) if r.random() < 0.6 else "0" * r.choice([1, 2]) + str(kw["eb"])
+            argv = ["cache_create", sub, "--output-file", out, "--eb-size", ebs]
             for i in kw["input"]:
                 argv += ["--input", i]
             if route == "cli":
